@@ -156,6 +156,7 @@ func runCharac(id string, toks []string) (res string) {
 	})
 	var out []string
 	step := func(op string) (stop bool) {
+		extra := ""
 		defer func() {
 			if r := recover(); r != nil {
 				out = append(out, "panic")
@@ -172,16 +173,21 @@ func runCharac(id string, toks []string) (res string) {
 		case "G":
 			v := parseVal(p[1])
 			c.OnValueGet(func() interface{} { return v })
-			c.GetValue()
+			ret := c.GetValue()
+			extra = handedOut(c, ret)
 			c.OnValueGet(nil)
 		case "GR":
 			q := strings.SplitN(p[1], ":", 2)
 			v := parseVal(q[1])
 			c.OnValueGet(func() interface{} { return v })
-			c.GetValueFromConnection(&fakeConn{id: q[0]})
+			ret := c.GetValueFromConnection(&fakeConn{id: q[0]})
+			extra = handedOut(c, ret)
 			c.OnValueGet(nil)
+		case "ST":
+			// the application declares a step value (it must never move a value out of its bounds)
+			c.StepValue = parseVal(p[1])
 		}
-		out = append(out, showVal(c.Value))
+		out = append(out, showVal(c.Value)+extra)
 		return false
 	}
 	for _, op := range toks[6:] {
@@ -198,6 +204,19 @@ func runCharac(id string, toks []string) (res string) {
 		res += " json=ok"
 	}
 	return res
+}
+
+// handedOut: what a getter call returns while the application's get callback is installed must be the stored
+// (converted, clamped) value, and the typed getter must work on it
+func handedOut(c *characteristic.Characteristic, ret interface{}) string {
+	s := ""
+	if showVal(ret) != showVal(c.Value) {
+		s += "!ret=" + showVal(ret)
+	}
+	if c.Value != nil && typedGetter(c) == "panic" {
+		s += "!getterpanic"
+	}
+	return s
 }
 
 func typedGetter(c *characteristic.Characteristic) (r string) {
